@@ -412,7 +412,7 @@ class Check:
         self.cov["trusted_base"] = [
             "Coq 8.16.1 kernel (coqc; vm_compute used for finite sweeps and witnesses; no native_compute)",
             "Print Assumptions per theorem: " + ("; ".join(sorted(set(self.cov.get("print_assumptions", [])))) or "n/a (proof did not check)"),
-            "translators translate/*.py (tables, lock protocol, access summary) — regenerate coq/Gen_*.v from /repo on every run",
+            "translators translate/*.py (tables, lock protocol, access summary, adaptor fingerprints; parse.py: the bodies of the parser functions as terms of the deep embedding M_Imp/M_Loop/M_Hdr/M_Msg/M_Chunk, whose interpreters - the meaning given to the C++ statements, message_headers::add taken as fields_add - are trusted) — regenerate coq/Gen_*.v from /repo on every run",
             "extraction: Require Extraction + ExtrOcamlBasic only (Extract Inductive bool/option/unit/list/prod/sumbool/sumor, Extract Inlined Constant andb/orb); N/positive/nat/Z stay inductive; OCaml 4.13.1 ocamlfind ocamlopt; hand-written ocaml/*.ml driver",
             "correspondence harnesses cpp/*.cpp built with g++ 12 against /repo/include at check time (-DVIA_HTTPLIB_VERIF), python orchestrator and canonicalisers",
             "hand-written Gallina model coq/M_*.v: faithful to the code only as far as the correspondence run shows",
